@@ -239,18 +239,18 @@ impl SwiftField for Field52D {
             let line = &lines[0][1..]; // Remove leading /
 
             // Check if it's /1!a/34x format
-            if let Some(slash_pos) = line.find('/') {
+            let coded = line.find('/').filter(|&slash_pos| {
+                let code = &line[..slash_pos];
+                code.len() == 1
+                    && code.chars().all(|c| c.is_ascii_alphabetic())
+                    && line[slash_pos + 1..].len() <= 34
+            });
+            if let Some(slash_pos) = coded {
                 let code = &line[..slash_pos];
                 let id = &line[slash_pos + 1..];
-
-                if code.len() == 1
-                    && code.chars().all(|c| c.is_ascii_alphabetic())
-                    && id.len() <= 34
-                {
-                    parse_swift_chars(id, "Field 52D party identifier")?;
-                    party_identifier = Some(format!("{}/{}", code, id));
-                    start_idx = 1;
-                }
+                parse_swift_chars(id, "Field 52D party identifier")?;
+                party_identifier = Some(format!("{}/{}", code, id));
+                start_idx = 1;
             } else if line.len() <= 34 {
                 // Just /34x format
                 parse_swift_chars(line, "Field 52D party identifier")?;
